@@ -595,6 +595,9 @@ RealCodec = ElemCodec(z3.RealSort(), lambda v: to_real(v), lambda t: t, 'Real')
 ValCodec = ElemCodec(Val, lambda v: v, lambda t: t, 'Val')
 
 
+RefCodec = ElemCodec(z3.IntSort(), lambda v: v.r, lambda t: ObjRef(t), 'Ref')
+
+
 def seq_codec(inner):
     """codec for lists whose elements are themselves z3-sequence modelled lists"""
     return ElemCodec(z3.SeqSort(inner.sort), lambda v: v.s, lambda t: SeqVal(t, inner), 'Seq_' + inner.name)
